@@ -23,6 +23,29 @@ STYLES = (("causal", False), ("centered", False), ("centered", True))
 FLAGS = list(itertools.product((True, False), (False, True), (False, True)))  # log, power, energy
 
 
+VARIANTS = ("generic", "zeros", "loud_then_quiet", "outlier", "tiny")
+
+
+def _signal(seed, N, variant):
+    """data alphabet: generic noise; all zeros (log floor); a loud passage followed by a quiet one
+    and a single huge early sample (value-dependent shortcuts such as running sums lose precision
+    there); tiny amplitudes around the log floor"""
+    x = sig.signal(seed, N)
+    if variant == "zeros":
+        return np.zeros(N)
+    if variant == "loud_then_quiet":
+        x = x.copy()
+        x[: N // 3] *= 1e4
+        x[N // 3:] *= 1e-2
+    elif variant == "outlier":
+        x = x.copy()
+        if N > 1:
+            x[1] = 1e8
+    elif variant == "tiny":
+        x = x * 1e-3
+    return x
+
+
 def _eval(pt, seed):
     bankname, L, S, pad, (style, kaldi), window = pt
     from pydrobert.speech import config
@@ -55,8 +78,8 @@ def _eval(pt, seed):
         tags = dict(bank=type(bank).__name__, real=bool(bank.is_real), style=style, kaldi=kaldi,
                     Dmod4=Dexp % 4, pad=pad)
         for N in sorted(set([0, L // 2, L // 2 + 1, L, 2 * L + 1, 3 * L + S])):
-            for variant in ("generic", "zeros") if N == L else ("generic",):
-                x = sig.signal(seed, N) if variant == "generic" else np.zeros(N)
+            for variant in VARIANTS if N in (L, 3 * L + S) else ("generic",):
+                x = _signal(seed, N, variant)
                 evals += 1
                 r = computers.call(comp.compute_full, sig.ro(x))
                 case = dict(config=c, N=N, signal=variant)
@@ -78,12 +101,16 @@ def _eval(pt, seed):
                     continue
                 if want.shape[0]:
                     nontriv += 1
+                # round-off of an FFT is relative to the LARGEST term of a frame: with a dynamic
+                # range of 1e8..1e12 inside one frame small coefficients carry ~1e-8 relative noise
+                tol = 1e-9 if variant in ("generic", "zeros", "tiny") else 1e-5
                 if use_log:
-                    ok = np.all(np.abs(got - want) <= 1e-9 + 1e-9 * np.abs(want))
+                    ok = np.all(np.abs(got - want) <= tol + tol * np.abs(want))
                 else:
-                    ok = np.all(np.abs(got - want) <= 1e-9 * np.abs(want) + 1e-13)
+                    ok = np.all(np.abs(got - want) <= tol * np.abs(want) + (
+                        1e-13 if tol == 1e-9 else tol * 1e-3 * np.max(np.abs(want), initial=0.0)))
                 if not ok:
-                    bad = np.argwhere(~(np.abs(got - want) <= 1e-9 + 1e-9 * np.abs(want)))
+                    bad = np.argwhere(~(np.abs(got - want) <= tol + tol * np.abs(want)))
                     col = int(bad[0][1]) if len(bad) else -1
                     is_energy = bool(energy and col == 0)
                     viol.append(core.violation(
@@ -113,7 +140,7 @@ def _replay(case, seed):
         from pydrobert.speech import filters
         win = filters.GammaWindow() if c["style"] == "causal" else filters.HannWindow()
     N = case["N"]
-    x = sig.signal(seed, N) if case["signal"] == "generic" else np.zeros(N)
+    x = _signal(seed, N, case["signal"])
     want = ref.compute_full(x, bank, L, S, D, win.get_impulse_response(L), c["style"], c["kaldi"],
                             c["log"], c["power"], c["energy"], config.LOG_FLOOR_VALUE)
     r = computers.call(comp.compute_full, sig.ro(x))
@@ -124,12 +151,77 @@ def _replay(case, seed):
     got = r[1]
     if got.shape != want.shape:
         return core.result([core.violation(dict(tags, what="shape"), "%r vs %r" % (got.shape, want.shape), case)])
-    if not np.all(np.abs(got - want) <= 1e-9 + 1e-9 * np.abs(want)):
-        bad = np.argwhere(~(np.abs(got - want) <= 1e-9 + 1e-9 * np.abs(want)))
+    tol = 1e-9 if case["signal"] in ("generic", "zeros", "tiny") else 1e-5
+    if not np.all(np.abs(got - want) <= tol + tol * np.abs(want)):
+        bad = np.argwhere(~(np.abs(got - want) <= tol + tol * np.abs(want)))
         return core.result([core.violation(
             dict(tags, what="values", energy_column=bool(c["energy"] and bad[0][1] == 0)),
             "got\n%r\ndefinition\n%r" % (got, want), case)])
     return core.result([])
+
+
+def _shared_bank(pt, seed):
+    """construction histories on ONE bank object: several computers (different frame lengths, padded
+    and unpadded DFT sizes, styles) are built in sequence on the same bank instance; every one of
+    them - checked after ALL have been built - must still agree with the definition (whose responses
+    come from a fresh bank).  A cache on the bank with an incomplete key shows up here."""
+    from pydrobert.speech import config
+
+    bankname, seq = pt
+    shared = cfg.make_bank(bankname)
+    comps = []
+    for (L, S, pad, style, kaldi) in seq:
+        c = dict(kind="stft", bank=bankname, bank_obj=shared, L=L, S=S, style=style, kaldi=kaldi,
+                 window="hamming", pad=pad, log=True, power=False, energy=True)
+        r = computers.call(cfg.make_computer, c)
+        if r[0] != "ok":
+            return core.result(nontrivial=False, obs="unconstructible:" + r[1], skipped=True)
+        comps.append((r[1], L, S, pad, style, kaldi))
+    viol = []
+    evals = 0
+    for idx, (comp, L, S, pad, style, kaldi) in enumerate(comps):
+        fresh_bank = cfg.make_bank(bankname)
+        D = int(2 ** np.ceil(np.log2(L))) if pad else L
+        w = cfg.make_window("hamming").get_impulse_response(L)
+        N = 2 * L + 1
+        x = sig.signal(seed, N)
+        evals += 1
+        try:
+            want = ref.compute_full(x, fresh_bank, L, S, D, w, style, kaldi, True, False, True,
+                                    config.LOG_FLOOR_VALUE)
+        except ref.OutOfRecipe:
+            continue
+        r = computers.call(comp.compute_full, sig.ro(x))
+        case = dict(bank=bankname, seq=[list(q) for q in seq], index=idx)
+        tags = dict(what="shared_bank", position=("first" if idx == 0 else "later"),
+                    same_L_other_pad=bool(any(q[0] == L and q[2] != pad for q in seq)))
+        if r[0] != "ok":
+            viol.append(core.violation(dict(tags, aspect="exception", exc=r[1]),
+                                       "computer #%d of %r on a shared bank raised %s: %s" % (
+                                           idx, seq, r[1], r[2]), case))
+        elif r[1].shape != want.shape or not np.all(np.abs(r[1] - want) <= 1e-9 + 1e-9 * np.abs(want)):
+            viol.append(core.violation(
+                dict(tags, aspect="values"),
+                "computers built in sequence %r on ONE %s bank object: computer #%d differs from the "
+                "definition (max|diff| %s)" % (seq, bankname, idx,
+                                                float(np.max(np.abs(r[1] - want))) if r[1].shape == want.shape else "shape"),
+                case))
+    return core.result(viol, evals=evals, nontrivial_count=evals, obs=[bankname, len(viol) == 0],
+                       sample=dict(bank=bankname, sequence=[list(q) for q in seq]))
+
+
+def _shared_points(tier):
+    geo = [(6, 2, True, "centered", False), (6, 2, False, "centered", False),
+           (5, 2, True, "causal", False), (5, 2, False, "centered", True),
+           (8, 3, True, "centered", True), (6, 3, False, "causal", False)]
+    if tier == "thorough":
+        geo += [(7, 2, True, "centered", False), (7, 2, False, "causal", False), (12, 5, False, "centered", False)]
+    pts = []
+    for b in ("tri", "gabor", "gammatone", "tri_an", "fbank"):
+        for k in (2, 3) if tier == "quick" else (2, 3, 4):
+            for seq in itertools.permutations(geo, k) if k == 2 else itertools.combinations(geo, k):
+                pts.append((b, list(seq)))
+    return pts
 
 
 def _default_len(pt):
@@ -193,11 +285,18 @@ def subchecks(tier, seed):
         core.SubCheck(
             "definition", pts, lambda p: _eval(p, seed),
             "real compute_full vs definitional reference at every lattice point; inner loop: "
-            "use_log x use_power x include_energy x N in {0,L//2,L//2+1,L,2L+1,3L+S} (+zero signal); "
+            "use_log x use_power x include_energy x N in {0,L//2,L//2+1,L,2L+1,3L+S} (x data alphabet {generic, zeros, loud-then-quiet, outlier, tiny} at N=L and 3L+S); "
             "non-trivial = at least one frame produced",
             axes=dict(bank=banks, L=list(Ls), S="{1,2,3,L}", pad=[True, False],
                       style=["causal", "centered", "centered+kaldi"], window=["hamming", "default"]),
             replay=lambda case: _replay(case, seed)),
+        core.SubCheck(
+            "shared_bank", _shared_points(tier), lambda p: _shared_bank(p, seed),
+            "construction histories: every ordered pair (and unordered triple) of STFT computers over a "
+            "small geometry alphabet (same/different frame length, padded/unpadded DFT, styles) built on "
+            "ONE bank instance; each, evaluated after all were built, must equal the definition computed "
+            "with a fresh bank",
+            replay=lambda case: _shared_bank((case["bank"], [tuple(q) for q in case["seq"]]), seed)),
         core.SubCheck(
             "default_length", dl, _default_len,
             "frame_length_ms=None keeps >=1 non-zero DFT bin per filter, over banks x scales x "
